@@ -45,6 +45,7 @@ Field instance:
 
 
 """
+import copy
 import logging
 from typing import Callable, Optional
 
@@ -152,6 +153,11 @@ class MetaStruct(type):
         for aname, field in data.items():
             if hasattr(field, "_inspect_args"):
                 data[aname] = Field(field)
+            elif isinstance(field, Field) and field.name is not None:
+                # this Field object already describes a field of another
+                # class (e.g. {**Other._xofields, ...}): index and offset of
+                # that class must not be overwritten by the ones of this class
+                data[aname] = copy.copy(field)
         for aname, field in data.items():
             if isinstance(field, Field):
                 field.index = findex
